@@ -326,7 +326,7 @@ pub fn shard_run(prop: &str, tier: &str, seed: u64, replay: Option<&serde_json::
         let plan: Vec<(Mode, usize, usize, bool, [u32; 4])> = if thorough {
             let mut v = vec![];
             for rep in 0..5 {
-                for m in [Mode::LibMem, Mode::LibSqliteShared, Mode::LibSqlitePerThread, Mode::SocketMem, Mode::TwoProcesses] {
+                for m in [Mode::LibMem, Mode::LibSqliteShared, Mode::LibSqlitePerThread, Mode::SocketMem, Mode::TwoProcesses, Mode::SecondProcessJoins] {
                     v.push((m, 8 + (rep % 2) * 4, if m == Mode::LibMem { 600 } else { 150 }, rep % 2 == 1, if rep % 3 == 2 { SNAPSHOTS } else { MIXED }));
                 }
             }
@@ -337,6 +337,8 @@ pub fn shard_run(prop: &str, tier: &str, seed: u64, replay: Option<&serde_json::
                 (Mode::LibMem, 8, 200, true, MIXED),
                 (Mode::SocketMem, 6, 60, false, MIXED),
                 (Mode::TwoProcesses, 6, 40, true, MIXED),
+                (Mode::SecondProcessJoins, 6, 40, false, MIXED),
+                (Mode::SecondProcessJoins, 6, 30, false, [85, 10, 0, 5]),
                 (Mode::LibSqlitePerThread, 8, 150, false, SNAPSHOTS),
                 (Mode::LibSqliteShared, 8, 150, false, SNAPSHOTS),
                 (Mode::LibMem, 8, 300, false, SNAPSHOTS),
